@@ -401,7 +401,7 @@ fn case(cfg: &Config, idx: u64, r: &mut Rng, st: &mut Stats) {
 pub fn run(cfg: &Config) -> i32 {
     let started = Instant::now();
     let budget = Duration::from_secs_f64(cfg.pick(45.0, 420.0) * cfg.scale);
-    let stats = parallel(cfg, "main", cfg.scaled(cfg.pick(4000, 2_000_000)), budget, |idx, r, st| case(cfg, idx, r, st));
+    let stats = parallel(cfg, "main", cfg.scaled(cfg.pick(40_000, 2_000_000)), budget, |idx, r, st| case(cfg, idx, r, st));
     finish(
         cfg,
         started,
@@ -410,7 +410,7 @@ pub fn run(cfg: &Config) -> i32 {
             level: "exploration",
             rule: "generated external tasks with proof outlines (1-4 entries: definitions, lemmas with free variables, inductive lemmas with negative n / N rebound inside F / extra free variables; every direction annotation) under random flags; (1) history check over the emitted problem list: every axiom must be a premise of the direction (axioms of the same task built with an empty outline), an accepted definition, a lemma whose obligation problems were all emitted earlier, or an earlier conclusion; (2) induction: on interpretations where the emitted base and step evaluate to true, F[N:=k] must not be false for k in n..n+12; (3) outlines with a definition violating one acceptance condition must be refused; a case is one checked problem / induction instance / refused definition".into(),
             assumptions: vec!["formula identity is by syntax tree; universal closure of lemma formulas uses anthem's own closure function for matching only".into()],
-            floor: cfg.pick(5_000, 40_000),
+            floor: cfg.pick(100_000, 500_000),
             floor_counter: "axiom_justification_checks".into(),
             known_replayed: vec![],
             extra: J::obj(),
